@@ -888,7 +888,7 @@ fn main() {
     mon.assume("table C has no notion of a sender, so 'from the contacted peer' is not judged there; for C any in-time reply carrying the request id may win");
     mon.assume("table A entries of dropped futures are aged by std::time::Instant: that sub-check runs in a real-time lane (request timeout 60 ms, wait 2x+400 ms, one trigger request)");
     mon.assume("live-sweep lane (real time): request timeout 1.5 s, send 0.3-0.7 s, a second request 60-250 ms after one timeout; judged only when the machine kept that schedule (send done 300 ms inside one timeout, second request 400 ms inside two)");
-    let per_shard = mon.by_tier(400u64, 3000);
+    let per_shard = mon.by_tier(400u64, 40_000);
     vkit::run_shards(mon.shards(), mon.seed, |i, mut rng| {
         let mut tok = (i as u64) << 40;
         for k in 0..per_shard {
